@@ -1460,3 +1460,29 @@ Proof.
   - intros H. vm_compute in H. discriminate.
   - intros [H|[]]. vm_compute in H. discriminate.
 Qed.
+
+(* ------------------------------------------------------------------------------------------ *)
+(* copy_subdir: one copytree *)
+Lemma copy_item_copies root loc st item es sub :
+  dir_exists (loc ++ [item]) st = false ->
+  dir_at loc root = Some es -> find_entry item es = Some (Dir item sub) ->
+  forall p, In p (all_files (Dir item sub)) -> has (loc ++ p) (copy_item root loc st item).
+Proof.
+  intros Hex Hd Hf p Hp. unfold copy_item. rewrite Hd, Hf, Hex.
+  unfold has. simpl. rewrite map_app, in_app_iff. left.
+  rewrite map_rev, <- in_rev, map_map. simpl.
+  apply in_map_iff. exists p. auto.
+Qed.
+
+Theorem files_copied_beside_spec proj es p :
+  wf_tree (Dir [] es) = true -> regular proj None (Dir [] es) = true ->
+  page_tree proj es <> RErr ->
+  In p (spec_copied [] (Dir [] es)) ->
+  exists o, file_at p (f_files (writeout es (page_tree proj es))) = Some o /\
+            (o = Copy p \/ exists src, o = Page src).
+Proof.
+  intros Hwf Hr Hne Hp.
+  destruct (copied_all proj (Dir [] es) [] es eq_refl None [] Hwf Hr Hne p Hp)
+    as (n & f & Hn & Hf & ->).
+  exact (files_copied_beside es (page_tree proj es) n f Hn Hf).
+Qed.
